@@ -17,6 +17,8 @@
 #include <kernel/analytic/common.hpp>
 #include <kernel/assembly/common_functionals.hpp>
 #include <kernel/assembly/error_computer.hpp>
+#include <kernel/assembly/mean_filter_assembler.hpp>
+#include <kernel/util/property_map.hpp>
 #include <kernel/solver/pcg.hpp>
 #include <kernel/solver/richardson.hpp>
 #include <kernel/solver/jacobi_precond.hpp>
@@ -44,11 +46,12 @@ namespace
   };
   const char* const out_names[] = {"global dofs", "iterations", "status", "initial defect", "final defect", "H0 error", "H1 error", "|rhs|", "|sol|", "iterations of the 2nd solve with the same solver objects", "final defect of the 2nd solve", "|sol| of the 2nd solve"};
 
-  struct Cfg { std::string mesh; std::string levels; int P; int space; std::string str() const { return "mesh=" + mesh + " levels='" + levels + "' P=" + std::to_string(P) + " space=Lagrange" + std::to_string(space); } };
+  struct Cfg { std::string mesh; std::string levels; int P; int space; int problem = 0; int route = 0;
+    std::string str() const { return "mesh=" + mesh + " levels='" + levels + "' P=" + std::to_string(P) + " space=Lagrange" + std::to_string(space) + (problem == 0 ? " problem=dirichlet(unit filter)" : " problem=neumann(mean filter)") + (route == 0 ? "" : route == 1 ? " partitioner options via parse_args" : " partitioner options via parse_property_map"); } };
 
   template<typename SpaceTag_> struct SpaceSel;
 
-  template<typename SpaceType_, typename MeshType, typename TrafoType>
+  template<typename SpaceType_, typename MeshType, typename TrafoType, int problem_>
   void rank_main(const Cfg& cfg, Out& out)
   {
     typedef double DataType; typedef Index IndexType;
@@ -56,10 +59,31 @@ namespace
     typedef typename MeshType::ShapeType ShapeType;
     Dist::Comm comm(Dist::Comm::world());
     Control::Domain::PartiDomainControl<DomainLevelType> domain(comm, true);
+    if(cfg.route == 1)
+    {
+      // the command line route of the applications
+      const char* av[] = {"c13_control", "--parti-type", "2level", "naive", "--parti-rank-elems", "1"};
+      SimpleArgParser args(6, const_cast<char**>(av));
+      Control::Domain::add_supported_pdc_args(args);
+      if(!domain.parse_args(args)) { out.note = "parse_args rejected valid partitioner options"; return; }
+    }
+    else if(cfg.route == 2)
+    {
+      PropertyMap pmap;
+      pmap.add_entry("parti-type", "2level naive");
+      pmap.add_entry("parti-rank-elems", "1");
+      if(!domain.parse_property_map(pmap)) { out.note = "parse_property_map rejected valid partitioner options"; return; }
+    }
     {
       std::deque<String> lv = String(cfg.levels).split_by_whitespaces();
       domain.set_desired_levels(lv);
     }
+    if(cfg.mesh.compare(0, 5, "rect:") == 0)
+    {
+      const Index ne = Index(atoi(cfg.mesh.c_str() + 5));
+      domain.create_rectilinear(ne, ne);
+    }
+    else
     {
       std::deque<String> files; files.push_back(String("/repo/data/meshes/") + cfg.mesh);
       domain.create(files);
@@ -68,8 +92,8 @@ namespace
     out.levels = domain.format_chosen_levels();
     out.parti = domain.get_chosen_parti_info();
 
-    Analytic::Common::ExpBubbleFunction<ShapeType::dimension> sol_func;
-    typedef Control::ScalarUnitFilterSystemLevel<DataType, IndexType> SystemLevelType;
+    typename std::conditional<problem_ == 0, Analytic::Common::ExpBubbleFunction<ShapeType::dimension>, Analytic::Common::CosineWaveFunction<ShapeType::dimension>>::type sol_func;
+    typedef typename std::conditional<problem_ == 0, Control::ScalarUnitFilterSystemLevel<DataType, IndexType>, Control::ScalarMeanFilterSystemLevel<DataType, IndexType>>::type SystemLevelType;
     std::deque<std::shared_ptr<SystemLevelType>> system_levels;
     const Index num_levels = domain.size_physical();
     for(Index i(0); i < num_levels; ++i) system_levels.push_back(std::make_shared<SystemLevelType>());
@@ -91,7 +115,10 @@ namespace
     for(Index i(0); i < num_levels; ++i)
       system_levels.at(i)->assemble_laplace_matrix(domain.at(i)->domain_asm, domain.at(i)->space, cubature);
     for(Index i(0); i < num_levels; ++i)
-      system_levels.at(i)->assemble_homogeneous_unit_filter(*domain.at(i), domain.at(i)->space);
+    {
+      if constexpr(problem_ == 0) system_levels.at(i)->assemble_homogeneous_unit_filter(*domain.at(i), domain.at(i)->space);
+      else system_levels.at(i)->assemble_mean_filter(domain.at(i)->space, cubature);
+    }
 
     typedef typename SystemLevelType::GlobalSystemVector GlobalSystemVector;
     DomainLevelType& the_domain_level = *domain.front();
@@ -160,8 +187,12 @@ namespace
   {
     typedef Geometry::ConformalMesh<Shape::Hypercube<2>> MeshType;
     typedef Trafo::Standard::Mapping<MeshType> TrafoType;
-    if(cfg.space == 1) rank_main<Space::Lagrange1::Element<TrafoType>, MeshType, TrafoType>(cfg, out);
-    else rank_main<Space::Lagrange2::Element<TrafoType>, MeshType, TrafoType>(cfg, out);
+    if(cfg.problem == 0)
+    {
+      if(cfg.space == 1) rank_main<Space::Lagrange1::Element<TrafoType>, MeshType, TrafoType, 0>(cfg, out);
+      else rank_main<Space::Lagrange2::Element<TrafoType>, MeshType, TrafoType, 0>(cfg, out);
+    }
+    else rank_main<Space::Lagrange1::Element<TrafoType>, MeshType, TrafoType, 1>(cfg, out);
   }
 
   std::vector<Out> execute(const Cfg& cfg, int P, int mode, const std::vector<int>& prefix, std::string& left)
@@ -194,7 +225,7 @@ int main(int argc, char** argv)
   verif::Spec spec;
   spec.property = "C13";
   spec.harness = "c13_control";
-  spec.rule = "case = (mesh file, desired-level string incl. multi-layered hierarchies, ranks P, space); the flow of applications/poisson_dirichlet.cpp "
+  spec.rule = "case = (mesh file or create_rectilinear, desired-level string incl. multi-layered hierarchies, ranks P, space, Dirichlet problem with ScalarUnitFilterSystemLevel or Neumann problem with ScalarMeanFilterSystemLevel / Global::MeanFilter, partitioner options set by default / parse_args / parse_property_map); the flow of applications/poisson_dirichlet.cpp "
     "(PartiDomainControl, ScalarUnitFilterSystemLevel gate/muxer/transfer/matrix/filter assembly, PCG with V-cycle multigrid) runs on P rank threads over the MPI model; "
     "default schedule and all schedules with <= D Waitany deviations, both send modes; compared with the P=1 run. Non-trivial = P >= 2.";
   spec.bounds_quick = "unit-square-quad, levels '3 1' / '3 0' / multi-layered '4 2:1 0', P in {1,2,3,4}(+6,8 default schedule only), Lagrange1 and Lagrange2; <= 1 deviation for P <= 4 capped at 300 executions per case and mode";
@@ -217,12 +248,15 @@ int main(int argc, char** argv)
     std::vector<int> Ps = {1, 2, 3, 4, 6, 8};
     if(T) Ps.push_back(16);
     vsched::set_deadlock_cb(deadlock_cb, nullptr);
-    for(int space = 1; space <= 2; ++space)
+    struct Variant { int space; int problem; const char* mesh; int route; };
+    const Variant variants[] = {{1, 0, "unit-square-quad.xml", 0}, {2, 0, "unit-square-quad.xml", 1}, {1, 1, "unit-square-quad.xml", 2}, {1, 0, "rect:2", 0}};
+    for(const Variant& va : variants)
     for(const std::string& lv : levels)
     for(int P : Ps)
     {
       if(!c.want()) continue;
-      Cfg cfg{"unit-square-quad.xml", lv, P, space};
+      Cfg cfg{va.mesh, lv, P, va.space}; cfg.problem = va.problem; cfg.route = va.route;
+      const int space = va.space; (void)space;
       c.desc([&]{ return cfg.str(); });
       if(lv == "5 3:2 1:1 0" && P < 4) { c.excluded("multi-layered hierarchy with fewer ranks than layers need"); continue; }
       if(lv == "4 2:1 0" && P < 2) { c.excluded("layered hierarchy on one rank"); continue; }
@@ -252,7 +286,7 @@ int main(int argc, char** argv)
         if(!lft.empty()) o << "MPI objects left behind: " << lft << "; ";
         for(int r = 0; r < P; ++r)
         {
-          if(!outs[size_t(r)].done) { o << "rank " << r << " did not finish; "; continue; }
+          if(!outs[size_t(r)].done) { o << "rank " << r << " did not finish: " << outs[size_t(r)].note << "; "; continue; }
           const std::vector<double> got = outs[size_t(r)].all(), g0 = outs[0].all();
           for(size_t k = 0; k < got.size(); ++k)
           {
